@@ -1016,27 +1016,37 @@ class ListBox(Widget, WidgetContainerMixin):
             # do nothing
             return None
 
+        if position is None:
+            # the list was emptied after set_focus() was called
+            return None
+
         # restore old focus temporarily
-        self._body.set_focus(focus_pos)
+        try:
+            self._body.set_focus(focus_pos)
+        except (IndexError, KeyError):
+            # the old focus position was removed after set_focus() was called
+            middle = None
+        else:
+            middle, top, bottom = self.calculate_visible((maxcol, maxrow), focus)
 
-        middle, top, bottom = self.calculate_visible((maxcol, maxrow), focus)
-        focus_offset, _focus_widget, focus_pos, focus_rows, _cursor = middle  # pylint: disable=unpacking-non-sequence
-        _trim_top, fill_above = top  # pylint: disable=unpacking-non-sequence
-        _trim_bottom, fill_below = bottom  # pylint: disable=unpacking-non-sequence
+        if middle is not None:
+            focus_offset, _focus_widget, focus_pos, focus_rows, _cursor = middle  # pylint: disable=unpacking-non-sequence
+            _trim_top, fill_above = top  # pylint: disable=unpacking-non-sequence
+            _trim_bottom, fill_below = bottom  # pylint: disable=unpacking-non-sequence
 
-        offset = focus_offset
-        for _widget, pos, rows in fill_above:
-            offset -= rows
-            if pos == position:
-                self.change_focus((maxcol, maxrow), pos, offset, "below")
-                return None
+            offset = focus_offset
+            for _widget, pos, rows in fill_above:
+                offset -= rows
+                if pos == position:
+                    self.change_focus((maxcol, maxrow), pos, offset, "below")
+                    return None
 
-        offset = focus_offset + focus_rows
-        for _widget, pos, rows in fill_below:
-            if pos == position:
-                self.change_focus((maxcol, maxrow), pos, offset, "above")
-                return None
-            offset += rows
+            offset = focus_offset + focus_rows
+            for _widget, pos, rows in fill_below:
+                if pos == position:
+                    self.change_focus((maxcol, maxrow), pos, offset, "above")
+                    return None
+                offset += rows
 
         # failed to find widget among visible widgets
         self._body.set_focus(position)
